@@ -1,6 +1,9 @@
 """C06 stage "prims": the primitive shapes as SDF / PointSDF / NormalSDF, queried at quarter-lattice points including
 the exact centre, axis points, apex, torus ring points and surface points; judged by spec/geom/PrimJudge.tla
-(exact distances for spheres / circles / boxes, tolerance laws decided in the harness for the others)."""
+(exact distances for spheres / circles / boxes, tolerance laws decided in the harness for the others).
+
+Also model3d.ProfilePointSDF / ProfileSDF / ProfileSolid of a 2D Rect (= box, exact) and of a 2D Circle (= cylinder,
+tolerance laws); these fields have no NormalSDF, the normal clauses are vacuous for them (record field nonormal)."""
 import solids
 
 CLAUSES = {"panic", "sign", "agree", "point", "normal", "exact"}
